@@ -398,13 +398,18 @@ def h_seq(shape):
         amp = inp.real("amp", 0, 100)
         det = inp.fix("det", 7, -2000, 400)
         call = shape["call"]
-        name = {"add_g": "g", "add_l": "l", "add_dmm": "dmm_0", "add_dmm2": "dmm_0_1", "eom": "g"}[call]
+        name = {"add_g": "g", "add_l": "l", "add_dmm": "dmm_0", "add_dmm2": "dmm_0_1", "eom": "g", "eom_det": "g"}[call]
         ch = seq.declared_channels[name]
         try:
             if call in ("add_g", "add_l"):
                 seq.add(Pulse.ConstantPulse(d, amp, det, 0.0), name, shape.get("protocol", "min-delay"))
             elif call in ("add_dmm", "add_dmm2"):
                 seq.add_dmm_detuning(ConstantWaveform(d, det), name)
+            elif call == "eom_det":
+                # the detuning the channel idles at inside the block is CHOSEN by the library (calculate_detuning_off)
+                seq.enable_eom_mode("g", amp, inp.real("det_on", -260, 260))
+                seq.add_eom_pulse("g", d, 0.0)
+                seq.delay(16, "g")
             else:
                 seq.enable_eom_mode("g", amp, 0.0, 0.0)
                 seq.add_eom_pulse("g", d, 0.0)
@@ -425,6 +430,17 @@ def h_seq(shape):
             val_in = AND(amp <= ch.max_amp, abs(det) <= ch.max_abs_detuning)
             val_in_sl = AND(amp <= ch.max_amp, abs(det) <= ch.max_abs_detuning + 5e-7)
         obs = []
+        if ok and call == "eom_det":
+            # every pulse on the timeline (EOM pulses, and the detuned delays / buffers the library inserts) is within the limits
+            terms = []
+            for sl in seq._schedule[name].slots:
+                if l1.is_pulse(sl):
+                    dv = facade._unwrap0(sl.type.detuning._value)
+                    av = facade._unwrap0(sl.type.amplitude._value)
+                    terms.append(AND(abs(dv) <= ch.max_abs_detuning + 5e-7, av <= ch.max_amp + 1e-9))
+            return [("seq:every_scheduled_eom_slot_within_limits", AND(*terms))]
+        if call == "eom_det":
+            return []
         if ok:
             sl = seq._schedule[name].slots[-1]
             p = sl.type
@@ -563,6 +579,8 @@ def kernels(tier):
     ks.append(("seq", dict(device="virt_reuse", call="add_dmm2", prior=True, rem=1)))
     ks.append(("seq", dict(device="virt", call="add_l", prior=True, protocol="no-delay")))
     ks.append(("seq", dict(device="virt", call="add_g", prior=True, protocol="wait-for-all")))
+    for prior in (False, True):
+        ks.append(("seq", dict(device="virt", call="eom_det", prior=prior, rem=0)))
     # shaped waveforms whose duration is not a clock multiple (clock 4): lengthened by Sequence.add
     for d in ((10, 13) if tier == "quick" else (9, 10, 13, 18, 23)):
         ks.append(("seqwf", dict(wf="kaiser", d=d, beta=2.0)))
